@@ -570,6 +570,7 @@ package redis
 //@ func (*upstream).doSlotsRefresh
 //@   prop C11 C07
 //@   requires u != nil
+//@   loop 1 invariant @every-listed-slot-now-points-to-the-freshly-parsed-node forall j int :: 0 <= j && j <= rangeindex && 0 <= inst.Slots[j] && inst.Slots[j] < 16384 ==> u.slots[inst.Slots[j]] == inst
 
 //@ func parseClusterNodes
 //@   prop C11 C14
